@@ -166,7 +166,7 @@ const c12Rule = "metamorphic: rapid draws a battle (1..3 warriors, any code, ent
 
 func TestC12(t *testing.T) {
 	hx.Run(t, hx.Prop[shiftCase]{
-		ID: "C12", Sub: "shift", Rule: c12Rule, Checks: hx.Scale(20000, 1500000),
+		ID: "C12", Sub: "shift", Rule: c12Rule, Checks: hx.Scale(20000, 8000000),
 		Gen: genShiftCase, Judge: judgeShiftCase,
 	})
 }
